@@ -229,6 +229,8 @@ type c13State struct {
 	evSeq    int
 	windows  int
 	itemSalt int
+	handles  int            // 0: every registration goes through the table's own method and names the table itself
+	other    *tabular.ATable // another table, whose RegisterPropertyCallback method some registrations go through
 	log      []string
 	desc     map[string]interface{}
 	// current window
@@ -396,7 +398,42 @@ func (s *c13State) flush() {
 		}
 		g.done = true
 		g.regWindow = s.windows
-		err := s.t.RegisterPropertyCallback(owner, cbTimes[g.when], cbTargets[g.target], s.callback(g))
+		// which handle on the table the program uses is its own business: the method may be called on the table, on a
+		// wrapper around it (the method is promoted) or - the callback lists live in the owner - on another table
+		// altogether; and where the owner is the table, a wrapper around the table names it just as well
+		var registrar tabular.Table = s.t
+		via := ""
+		if s.handles != 0 {
+			h := g.id*7 + s.handles*3 + g.when + g.target*5
+			wrapOwner := g.owner == c13Table && (h/3)%3 != 0
+			switch {
+			case h%3 == 1 && !wrapOwner:
+				if s.other == nil {
+					s.other = tabular.New()
+					s.other.AddHeaders("another", "table")
+					s.other.AddRowItems("with", "rows")
+				}
+				registrar, via = s.other, " [through the RegisterPropertyCallback method of ANOTHER table]"
+			case h%3 == 2:
+				w := c10Wrappers[(h/9)%len(c10Wrappers)]
+				registrar, via = w.f(s.t), " [through the method of "+w.name+" around the table]"
+			}
+			if wrapOwner {
+				w := c10Wrappers[(h/5)%len(c10Wrappers)]
+				o := w.f(s.t)
+				via += " [owner named: " + w.name + " around the table]"
+				if (h/7)%3 == 0 {
+					w2 := c10Wrappers[(h/11)%len(c10Wrappers)]
+					o = w2.f(o)
+					via += " [inside " + w2.name + "]"
+				}
+				owner = o
+			}
+			if via != "" {
+				s.c.Rec.Count("registrations_made_through_another_handle_on_the_table", 1)
+			}
+		}
+		err := registrar.RegisterPropertyCallback(owner, cbTimes[g.when], cbTargets[g.target], s.callback(g))
 		s.c.Rec.Count("registrations", 1)
 		want := c13Valid(g.owner, g.target)
 		g.accepted = err == nil
@@ -404,7 +441,7 @@ func (s *c13State) flush() {
 			g.group.members = append(g.group.members, g)
 			s.c.Rec.Count("registrations_sharing_their_callback_value:"+c13GroupKindNames[g.group.kind], 1)
 		}
-		s.say("register %s -> err=%v", g, err)
+		s.say("register %s%s -> err=%v", g, via, err)
 		if want && err != nil {
 			s.viol("registration-refused:"+c13OwnerNames[g.owner]+"/"+cbTargetNames[g.target], fmt.Sprintf("supported registration %s was refused: %v", g, err))
 		}
@@ -797,6 +834,11 @@ func c13RunCase(c *Ctx, shape c13Shape, regs []*c13Reg, triggers []int, sample b
 	s := &c13State{c: c, t: tabular.New(), shape: shape, regs: regs, desc: map[string]interface{}{}}
 	c13ZNext = 0
 	s.itemSalt = int(gen.Hash64(shape.String(), fmt.Sprint(len(regs), triggers)) % 9)
+	if len(regs) > 0 {
+		if hs := int(gen.Hash64("handles", shape.String(), fmt.Sprint(len(regs), triggers, regs[0].id*31+regs[len(regs)-1].when)) % 5); hs >= 2 {
+			s.handles = hs
+		}
+	}
 	s.rows = make([]*tabular.Row, len(shape.rows))
 	s.att = make([]bool, len(shape.rows))
 	s.ncell = make([]int, len(shape.rows))
